@@ -53,20 +53,21 @@ def _bad(v, sig, what):
 def monitor_c02(sc, obs):
     v = []
     ents, _ = _ents(sc)
-    known = {}          # item id -> leaves (for failure records)
     lost = []
     census_ok = True
+    prev = None
     for i, o in enumerate(obs):
         devs = o['devices']
-        for d, e in devs.items():
-            for _, it in _items_in(e):
-                known[it['id']] = it['leaves']
         for r in o['data']:
             if r[0] == 8 and r[4] != -1:
-                if r[4] in known:
-                    lost += known[r[4]]
+                # the parts of a lost item are known only if it was seen in process in the failing device before this op (a
+                # batch taken in and lost within one run was last seen, if at all, while it was still being filled)
+                held = prev['devices'].get(r[1], {}).get('part') if prev else None
+                if held and held['id'] == r[4]:
+                    lost += held['leaves']
                 else:
                     census_ok = False
+        prev = o
         inside = []
         for d, e in devs.items():
             if e['kind'] == 6:
